@@ -41,6 +41,43 @@ pub fn bf(fp: &mut Fp, x: f64) {
     fp.push(x.to_bits());
 }
 
+
+/// Fingerprint of every serialisable field of a model (for learned quantities that have no public
+/// accessor, e.g. the class priors of naive Bayes): the serde form with object keys sorted, so that
+/// hash-map order inside the model does not show - only the values do.
+pub fn bj<T: serde::Serialize>(fp: &mut Fp, t: &T) {
+    fn canon(v: &serde_json::Value, out: &mut String) {
+        match v {
+            serde_json::Value::Object(m) => {
+                let mut keys: Vec<&String> = m.keys().collect();
+                keys.sort();
+                out.push('{');
+                for k in keys {
+                    out.push_str(k);
+                    out.push(':');
+                    canon(&m[k], out);
+                    out.push(',');
+                }
+                out.push('}');
+            }
+            serde_json::Value::Array(a) => {
+                out.push('[');
+                for x in a {
+                    canon(x, out);
+                    out.push(',');
+                }
+                out.push(']');
+            }
+            other => out.push_str(&other.to_string()),
+        }
+    }
+    let v = serde_json::to_value(t).expect("model serialises");
+    let mut s = String::new();
+    canon(&v, &mut s);
+    fp.push(s.len() as u64);
+    fp.extend(s.bytes().map(|b| b as u64));
+}
+
 // ---------- deterministic data ----------
 struct Lcg(u64);
 impl Lcg {
@@ -507,6 +544,52 @@ fn gaussian_nb_blobs() -> Result<Fp, String> {
     let m = GaussianNb::params().fit(&ds).map_err(e)?;
     let mut fp = Fp::new();
     bu(&mut fp, m.predict(&x).as_slice().unwrap());
+    bj(&mut fp, &m);
+    Ok(fp)
+}
+fn nb_unbalanced_classes() -> Result<Fp, String> {
+    // class sizes whose relative frequencies do not add up to 1.0 in every summation order
+    // (10/20/30 and 8/13/21/34/55): priors, means and variances are learned quantities without
+    // accessors - observed through the serde form
+    use linfa_bayes::{GaussianNb, MultinomialNb};
+    let mut fp = Fp::new();
+    for sizes in [&[10usize, 20, 30][..], &[8, 13, 21, 34, 55][..], &[1, 2, 3, 5, 7, 11][..]] {
+        let n: usize = sizes.iter().sum();
+        let mut y = Array1::zeros(n);
+        let mut i = 0;
+        for (c, &sz) in sizes.iter().enumerate() {
+            for _ in 0..sz {
+                y[i] = c;
+                i += 1;
+            }
+        }
+        // interleave so that the classes do not arrive sorted
+        let perm: Vec<usize> = (0..n).map(|i| (i * 7 + 3) % n).collect();
+        let coprime = (1..n).all(|d| n % d != 0 || d == 1 || 7 % d != 0);
+        let idx: Vec<usize> = if coprime && n % 7 != 0 { perm } else { (0..n).collect() };
+        let (x0, _) = blobs(n, 3, sizes.len(), 61 + n as u64);
+        let x = Array2::from_shape_fn((n, 3), |(r, j)| x0[(idx[r], j)].abs() + y[idx[r]] as f64);
+        let yy = Array1::from_shape_fn(n, |r| y[idx[r]]);
+        let ds = Dataset::new(x.clone(), yy);
+        let g = GaussianNb::params().fit(&ds).map_err(e)?;
+        bj(&mut fp, &g);
+        bu(&mut fp, g.predict(&x).as_slice().unwrap());
+        let m = MultinomialNb::params().fit(&ds).map_err(e)?;
+        bj(&mut fp, &m);
+        bu(&mut fp, m.predict(&x).as_slice().unwrap());
+    }
+    Ok(fp)
+}
+fn kmeans_pp_20000() -> Result<Fp, String> {
+    // above 2^14 rows (size-gated parallel paths), non-integer data
+    use linfa_clustering::{KMeans, KMeansInit};
+    let (x, _) = blobs(20000, 5, 4, 14);
+    let ds = Dataset::from(x.clone());
+    let m = KMeans::params_with_rng(4, rng(10)).init_method(KMeansInit::KMeansPlusPlus).n_runs(1).max_n_iterations(6).fit(&ds).map_err(e)?;
+    let mut fp = Fp::new();
+    b2(&mut fp, m.centroids());
+    bf(&mut fp, m.inertia());
+    b1(&mut fp, m.cluster_count());
     Ok(fp)
 }
 fn multinomial_nb_ties() -> Result<Fp, String> {
@@ -519,6 +602,7 @@ fn multinomial_nb_ties() -> Result<Fp, String> {
     let mut fp = Fp::new();
     bu(&mut fp, m.predict(&q).as_slice().unwrap());
     bu(&mut fp, m.predict(&x).as_slice().unwrap());
+    bj(&mut fp, &m);
     Ok(fp)
 }
 fn ftrl_default_seed() -> Result<Fp, String> {
@@ -951,7 +1035,7 @@ pub fn registry() -> Vec<Entry> {
         gaussian_nb_ties, gaussian_nb_blobs, multinomial_nb_ties, ftrl_default_seed,
         pca, random_projections, diffusion_map, fast_ica_seeded,
         diffusion_map_slowly_converging, pca_hard, iterative_fits_stopped_early,
-        seeds_at_boundary_values, pls_svd, kmeans_l1_big_f32, kernels_sparse_all_indices, svm_poly_f32_and_logistic_f32,
+        seeds_at_boundary_values, nb_unbalanced_classes, kmeans_pp_20000, pls_svd, kmeans_l1_big_f32, kernels_sparse_all_indices, svm_poly_f32_and_logistic_f32,
         scalers, whiteners, vectorizers, platt, one_vs_all_and_confusion, multiclass_svm_one_vs_all,
     ]
 }
